@@ -66,16 +66,21 @@ def _common_monitors(out, res, outputs, keyvars, secrets, allowed_stale_outputs=
         out.discharged += 1
 
 
-def _eq(out, props, key, label, got, want, bits, hyps=()):
+_SIM = {}
+
+
+def _eq(out, props, key, label, got, want, bits, hyps=(), sim=None):
     out.obligations += 1
-    verdict, model, dt = prove_equal(got, want, bits, hyps=hyps)
+    if sim is None:
+        sim = _SIM.setdefault("t", aesrun.CutTable(common.SEED))
+    verdict, model, dt = prove_equal(got, want, bits, hyps=hyps, sim=sim)
     out.queries += 1
     out.solver_s += dt
     if verdict == "proved":
         out.discharged += 1
         return True
     if verdict == "refuted":
-        out.bad(props, key, "%s differs from the standard's value (counterexample exists%s)" % (label, ""))
+        out.bad(props, key, "%s differs from the standard's value (%s)" % (label, ("concrete counterexample: got %s, standard %s" % (model.get("lhs", "?")[:40], model.get("rhs", "?")[:40])) if isinstance(model, dict) else "solver model"))
     else:
         out.error = "solver unknown on %s" % label
     return False
@@ -390,11 +395,11 @@ def xts_case(img, func, bits, direction, expanded, length, inplace, data_align=1
     for j in range(m):
         got = res.mem.get(res.regions[oname], 16 * j, 128)
         outputs.append(("out[%d]" % j, got, 128))
-        _eq(out, ["C03"], "xts:%s:block" % direction, "%s: output block %d of %d%s" % (c.name, j, m, " (+%d stolen bytes)" % b if b else ""), got, want[j], 128, hyps)
+        _eq(out, ["C03"], "xts:%s:block" % direction, "%s: output block %d of %d%s" % (c.name, j, m, " (+%d stolen bytes)" % b if b else ""), got, want[j], 128, hyps, cutinfo["table"])
     if b:
         got = res.mem.get(res.regions[oname], 16 * m, 8 * b)
         outputs.append(("out[tail]", got, 8 * b))
-        _eq(out, ["C03"], "xts:%s:stolen-tail" % direction, "%s: final partial block (%d bytes)" % (c.name, b), got, want_tail, 8 * b, hyps)
+        _eq(out, ["C03"], "xts:%s:stolen-tail" % direction, "%s: final partial block (%d bytes)" % (c.name, b), got, want_tail, 8 * b, hyps, cutinfo["table"])
         # exactly len bytes written
     secrets = [("key1 round key %d" % r, rk1[r]) for r in range(nrk)] + [("key2 round key %d" % r, rk2[r]) for r in range(nrk)] + [("encrypted tweak", T0)]
     if key1v is not None:
